@@ -23,7 +23,10 @@ KNOWN_MNEMONICS = {
     "x86": {"push", "pop", "mov", "lea", "add", "sub", "and", "ret", "emms", "vzeroupper", "endbr32", "endbr64", "nop",
             "movaps", "movups", "vmovaps", "vmovups", "movapd", "movupd", "vmovapd", "vmovupd", "movdqa", "movdqu",
             "vmovdqa", "vmovdqu", "vmovdqa32", "vmovdqu32", "vmovdqa64", "vmovdqu64", "kmovb", "kmovw", "kmovd", "kmovq",
-            "movq", "movd", "vmovq", "vmovd"},
+            "movq", "movd", "vmovq", "vmovd", "movss", "movsd", "vmovss", "vmovsd"},
+    # real function bodies of the Compiler-derived leg (results are uninterpreted; only WHERE they are written matters)
+    "x86body": {"add", "sub", "and", "or", "xor", "imul", "paddd", "vpaddd", "pxor", "vpxor", "addps", "addpd", "addss", "addsd",
+                "vaddps", "vaddpd", "vaddss", "vaddsd", "xorps", "vxorps", "call"},
     "a64": {"stp", "ldp", "str", "ldr", "mov", "add", "sub", "and", "ret", "bti", "nop"},
 }
 
@@ -120,6 +123,9 @@ def precheck(obs):
         if o.get("e") == "ABORT":
             raise Broken("harness aborted: " + json.dumps(o))
         fam = family(o)
+        for ins in o["body"]:
+            if ins["m"] not in KNOWN_MNEMONICS[fam] and ins["m"] not in KNOWN_MNEMONICS.get(fam + "body", ()):
+                raise Broken(f"body instruction outside the machine's vocabulary: {ins['m']} (cfg {json.dumps(o['cfg'])[:300]})")
         for ins in o["pro"] + o["epi"]:
             if ins["m"] not in KNOWN_MNEMONICS[fam]:
                 raise Broken(f"instruction outside the machine's vocabulary: {ins['m']} (cfg {json.dumps(o['cfg'])})")
@@ -164,6 +170,7 @@ def signature(o, inv, lost):
     ex = "".join(n for n, g in (("v", 1), ("k", 2), ("m", 3)) if saved[g])
     return (f"{inv}:{c['env']}:{c['cc']}:fp{e['fp']}:da{int(fr['has_da'])}:ex{ex or '-'}:pp{len(saved[0])}"
             f":ls{e['ls']}:la{e['la']}:cs{e['cs']}:ca{e['ca']}:sa{e['sa']}:args{c['nargs']}:order{order_of(c)}:{c.get('src', 'spec')}"
+            f"{'-' + c['callee'].get('kinds', '')[:4] + str(c['callee'].get('bind', '')) if 'callee' in c else ''}"
             f":lost{'.'.join(map(str, lost_groups)) or '-'}")
 
 
@@ -185,6 +192,10 @@ def describe(o):
            "promised": {k: e[k] for k in ("ls", "la", "cs", "ca", "fp", "calls")}}
     if "callee" in c:
         cfg["callee"] = c["callee"]
+    if o.get("slots"):
+        cfg["home_slots(arg,base,off,size,stackarg,argoff,argsz)"] = [[x["arg"], x["base"], x["off"], x["size"], int(x["stackarg"]), x["argoff"], x["argsz"]]
+                                                                        for x in o["slots"] if x["stackarg"] or x["used"]][:40]
+        cfg["body_instructions"] = len(o["body"])
     return {"cfg": cfg, "prolog": [ins(i) for i in o["pro"]], "epilog": [ins(i) for i in o["epi"]],
             "frame": {k: o["fr"][k] for k in ("final_align", "adj", "local_off", "ex_off", "ex_size", "da_off", "pp_size", "sa_reg", "sa_sp", "sa_sa", "cleanup")}}
 
@@ -230,7 +241,7 @@ def check_observations(ctx, obs, label):
         e = eff(c)
         orders.add(order_of(c))
         k = vlib.digest([c["env"], c["cc"], c["cp"], [e[f] for f in ("ls", "la", "cs", "ca", "fp", "calls")], [sorted(x) for x in e["d"]],
-                         o["cc"], o["fd"], o["fr"], o["pro"], o["epi"], o["err"]])
+                         o["cc"], o["fd"], o["fr"], o["pro"], o["epi"], o["err"], o["body"], o["slots"]])
         if k not in seen:
             seen.add(k)
             uniq.append(o)
@@ -343,6 +354,8 @@ def run(ctx):
     ctx.assumptions += [
         "harness/frame.cpp executes the recorded setter calls and logs FuncFrame accessors and Builder nodes verbatim (mnemonic, operand shapes); it computes nothing",
         "what a setter sequence promises is FrameMachine!Eff: set_* assigns, update_* takes the maximum, add_dirty adds, set_dirty assigns, set_/reset_ switch an attribute",
+        "Compiler-derived functions with many stack-passed arguments: the home slots (RAStackSlot of every work register) are read in on_done() of a pass subclass; "
+        "the real body is executed on the machine (arithmetic results are uninterpreted, every store is checked); functions the Compiler refuses are skipped",
         "Compiler-derived frames: the per-field accessors of the frame after the RA pass (call/local size+alignment, dirty sets, FP, calls) are taken as what the pass declared",
         "stack offsets of stack-passed arguments and arg_stack_size come from FuncDetail (their correctness is C06)",
         "standard conventions (preserved sets, natural alignment, red/home zone, callee-pops) are tabulated in FrameMachine.tla from the ABI documents; "
